@@ -166,3 +166,22 @@ theorem consistent_of_ok {size k segsize : Nat} {e : EncSizes} (hsize : 0 < size
     omega
 
 end Tahoe.Immutable.Sizes
+
+namespace Tahoe.Immutable.Sizes
+
+/-- the downloader's `_calculate_sizes` is the encoder's derivation projected on five numbers, for
+    every `(size, k, segsize)` — including which exception is raised -/
+theorem calculateSizes_eq_encoder (size k segsize : Nat) :
+    calculateSizes size k segsize = (encoderSizes size k segsize).map EncSizes.toDl := by
+  unfold calculateSizes encoderSizes
+  by_cases hk : k = 0
+  · simp [hk, Except.map]
+  · by_cases hd : segsize % k = 0
+    · by_cases hs : segsize = 0
+      · simp [hk, hs, Except.map]
+      · simp only [hk, hd, hs, if_false, ne_eq, not_true_eq_false, Except.map, EncSizes.toDl]
+        have hk' : 0 < k := Nat.pos_of_ne_zero hk
+        rw [divCeil_of_dvd hd, divCeil_of_dvd (nextMultiple_mod _ _)]
+    · simp [hk, hd, Except.map]
+
+end Tahoe.Immutable.Sizes
